@@ -34,44 +34,45 @@ func compressRewardSchedule() {
 type scenario struct {
 	name     string
 	blocks   int
-	lockByte func(i int) uint8 // lockup byte the miner uses from block index i on
-	pref     func(i int) float64
-	contract bool // the miner names an owner contract in its header data (contract layout)
-	deployAt int  // block index at which the owner contract is deployed
-	shares   int  // work shares ground and submitted per block
-	crafted  bool // shares with other miners / layouts (delegate, malformed) too
-	convert  bool // Quai->Qi and Qi->Quai conversions and Qi spends
-	reorgAt  int  // 0 = none; block index at which a competing branch is built
+	lockByte uint8   // lockup byte of the miner (Options.CoinbaseLockup)
+	pref     float64 // share of Qi coinbases after the controller kick-in
+	contract bool    // the miner names an owner contract in its header data (contract layout)
+	deployAt int     // block index at which the owner contract is deployed
+	shares   int     // work shares ground and submitted per block
+	crafted  bool    // shares of other miners with every lockup byte / layout (delegate, malformed) too
+	convert  bool    // Quai->Qi and Qi->Quai conversions and Qi spends
+	reorgAt  int     // 0 = none; block index at which a competing branch is built
 	dupUncle bool
 }
 
-func constByte(b uint8) func(int) uint8     { return func(int) uint8 { return b } }
-func constPref(p float64) func(int) float64 { return func(int) float64 { return p } }
-
+// NOTE: the miner's lockup byte / preference are fixed per net. Changing them on
+// a live node (Core.SetLockupByte / SetMinerPreference) can deadlock the worker:
+// prepareWork holds worker.mu.RLock and re-acquires it in GetLockupByte /
+// GetPrimaryCoinbase, so a writer arriving in between blocks both for ever
+// (observed with the 1 s pending-header ticker of the worker; reported, not part of C13).
 func scenarios(m *mon.M, r *rand.Rand) []scenario {
-	n := m.N(70, 110)
-	cyc := func(i int) uint8 { return uint8((i / 3) % 4) }
+	n := m.N(64, 100)
+	const quaiOnly = 0.0001
 	base := []scenario{
-		{name: "plain-byte0-quai", blocks: n, lockByte: constByte(0), pref: constPref(0.0001), convert: true},
-		{name: "plain-bytes-cycling-mixed-ledgers", blocks: n, lockByte: cyc, pref: constPref(0.4), convert: true},
-		{name: "plain-bytes-cycling-shares-reorg", blocks: n, lockByte: cyc, pref: constPref(0.25), shares: 2, crafted: true, reorgAt: 38, dupUncle: true},
-		{name: "contract-quai-byte1", blocks: n + 10, lockByte: constByte(1), pref: constPref(0.0001), contract: true, deployAt: 14},
-		{name: "contract-mixed-ledgers-bytes-cycling-shares", blocks: n + 10, lockByte: func(i int) uint8 { return uint8((i / 10) % 4) }, pref: constPref(0.35), contract: true, deployAt: 12, shares: 1, crafted: true},
-		{name: "contract-reorg", blocks: n + 10, lockByte: constByte(0), pref: constPref(0.2), contract: true, deployAt: 10, reorgAt: 52},
+		{name: "plain-byte0-quai", blocks: n, lockByte: 0, pref: quaiOnly, convert: true},
+		{name: "plain-byte1-mixed-ledgers", blocks: n, lockByte: 1, pref: 0.4, convert: true},
+		{name: "plain-byte2-shares-reorg", blocks: n, lockByte: 2, pref: 0.25, shares: 2, crafted: true, reorgAt: 38, dupUncle: true},
+		{name: "plain-byte3-mixed-ledgers-shares", blocks: n + 6, lockByte: 3, pref: 0.3, shares: 1},
+		{name: "contract-byte1-quai", blocks: n + 12, lockByte: 1, pref: quaiOnly, contract: true, deployAt: 14},
+		{name: "contract-byte0-mixed-ledgers-shares", blocks: n + 12, lockByte: 0, pref: 0.35, contract: true, deployAt: 12, shares: 1, crafted: true},
+		{name: "contract-byte2-reorg", blocks: n + 12, lockByte: 2, pref: 0.2, contract: true, deployAt: 10, reorgAt: 52},
+		{name: "contract-byte3-quai", blocks: n + 16, lockByte: 3, pref: quaiOnly, contract: true, deployAt: 9},
 	}
 	if !m.Thorough() {
 		return base
 	}
 	var out []scenario
-	for rep := 0; rep < 18; rep++ {
+	for rep := 0; rep < 16; rep++ {
 		for _, s := range base {
 			s.name = fmt.Sprintf("%s#%d", s.name, rep)
 			if rep > 0 {
-				b0 := uint8(r.Intn(4))
-				per := 1 + r.Intn(12)
-				s.lockByte = func(i int) uint8 { return uint8((int(b0) + i/per) % 4) }
-				p := []float64{0.0001, 0.2, 0.5, 0.8}[r.Intn(4)]
-				s.pref = constPref(p)
+				s.lockByte = uint8(r.Intn(4))
+				s.pref = []float64{quaiOnly, 0.2, 0.5, 0.8}[r.Intn(4)]
 				if s.reorgAt > 0 {
 					s.reorgAt = 30 + r.Intn(40)
 				}
@@ -79,6 +80,7 @@ func scenarios(m *mon.M, r *rand.Rand) []scenario {
 					s.deployAt = 8 + r.Intn(12)
 				}
 				s.shares = r.Intn(3)
+				s.crafted = s.shares > 0 && r.Intn(2) == 0
 			}
 			out = append(out, s)
 		}
@@ -122,7 +124,7 @@ func runScenario(m *mon.M, r *rand.Rand, sc scenario) {
 	// Quai[3] deployer of the owner contract, Quai[4] deployer of the second contract, Quai[5..6] traffic
 	fund := new(big.Int).Mul(big.NewInt(1e18), big.NewInt(1e9))
 	allocs := w.GenAllocs(fund)[3:]
-	opts := hnet.Options{GenAllocs: allocs, QuaiCoinbase: w.Quai[0].Addr, QiCoinbase: w.Qi[0].Addr, CoinbaseLockup: sc.lockByte(0), MinerPreference: sc.pref(0)}
+	opts := hnet.Options{GenAllocs: allocs, QuaiCoinbase: w.Quai[0].Addr, QiCoinbase: w.Qi[0].Addr, CoinbaseLockup: sc.lockByte, MinerPreference: sc.pref}
 	ns := &netState{sc: sc, minerQ: w.Quai[0].Addr, minerQi: w.Qi[0], convTo: w.Quai[1].Addr, claimTo: w.Quai[2].Addr, claimQi: w.Qi[1],
 		funded: w.Quai[5:], resent: map[common.Hash]bool{}, earlyTried: map[string]bool{}, lateSpent: map[string]int{}, claimPlan: map[string]int{}, claimRec: map[string]*lrec{}, skipRevert: map[string]bool{}}
 	if sc.contract {
@@ -155,8 +157,6 @@ func runScenario(m *mon.M, r *rand.Rand, sc scenario) {
 		x.watch[ia(ns.sharePay[0])] = "share-miner"
 	}
 	step := func(i int, opts hnet.MineOpts) bool {
-		n.Zone().Core.SetLockupByte(sc.lockByte(i))
-		n.Zone().Core.SetMinerPreference(sc.pref(i))
 		ns.traffic(i)
 		n.Zone().Core.TxPool().VerifQuiesce()
 		mined, ok := ns.mine(i, opts)
@@ -192,6 +192,7 @@ func runScenario(m *mon.M, r *rand.Rand, sc scenario) {
 			return
 		}
 	}
+	x.finish(30)
 	m.AddExtra("nets_completed", 1)
 }
 
@@ -287,5 +288,7 @@ func TestC13(t *testing.T) {
 	}
 	m.Floor(int64(m.N(1500, 20000)), 30)
 	m.Need("emission:single-share:quai", "credited:coinbase:byte0:miner", "credited:coinbase:byte1:miner", "credited:coinbase:byte2:miner", "credited:coinbase:byte3:miner",
-		"qi-coinbase-outputs:byte0:exact", "lockup-record-matches")
+		"lockup-record-matches", "credited:qi-to-quai-conversion:new-account:conversion-recipient", "credited:qi-to-quai-conversion:conversion-recipient",
+		"credited:claim-etx:claim-recipient", "claim-refused:latest-epoch", "claim-refused:non-owner", "claim-refused:before-tranche-height", "claim-refused:no-record",
+		"emission:with-shares:all-rewarded", "early-spend-of-locked-output:refused-by-pool", "qi-reward-output-spent:after-lock")
 }
